@@ -191,8 +191,8 @@ Definition bal_delta (o : op) (ok : bool) : Z :=
 Definition apply_pending (blocked : list addr) (e : addr * Z) (recs : gmap addr vrec) : gmap addr vrec :=
   match recs !! e.1 with
   | None => recs
-  | Some r => if bool_decide (e.1 ∈ blocked) then recs
-              else if vr_staking r - e.2 <? 0 then recs      (* HandleUnstake (e681066) *)
+  | Some r => (* since fix 0ce270f the purge-height rule (the [blocked] input) is not consulted here *)
+              if vr_staking r - e.2 <? 0 then recs           (* reduceStake (e681066) *)
               else <[e.1 := VRec (vr_saddr r) (vr_staking r - e.2) (wrap64 (vr_staking r - e.2))]> recs
   end.
 
@@ -299,9 +299,9 @@ Definition trig_deleted_with_stake (s : state) (o : op) : bool :=
   | _ => false
   end.
 
-(* C11.postponed_penalty_blocked : the penalty decided in the last end-block is applied to the v_
-   record by HandleUnstake in BeginBlock, which refuses it within 2 blocks of a purge of that
-   validator — the delegation records were reduced, the record never is *)
+(* C11.postponed_penalty_blocked (FIXED by 0ce270f; kept to state the former witness): the penalty
+   decided in the last end-block was applied to the v_ record by HandleUnstake in BeginBlock, which
+   refused it within 2 blocks of a purge of that validator *)
 Definition trig_postponed_blocked (s : state) (o : op) : bool :=
   match o with
   | OBegin blocked => existsb (fun e => bool_decide (e.1 ∈ blocked)) (pend s)
